@@ -15,15 +15,16 @@ from sqlparse import lexer, keywords, tokens as T
 from sqlparse.exceptions import SQLParseError
 
 from gen import chars, soup, grammar as G, options as O
+from oracles.treecheck import flat_shape as shape
 from props import c20_memo
 from vlib.core import Leg, Result, exc_failure, VERIF
 
 ID = 'C20'
-RULE = ('memo oracle: the results of 24 probes (parse shape, split, tokenize, every filter) are computed once in a fresh interpreter. history leg (model-based): drawn '
+RULE = ('memo oracle: the results of 40 probes (parse shape, split, tokenize, every filter) are computed once in a fresh interpreter. history leg (model-based): drawn '
         'operation sequences (<=25 steps) of {call on drawn input/options; call with an invalid option (raises); call on over-deep input under a lowered recursion '
         'limit (raises); parsestream consumed for j statements then closed / dropped / kept; tokenizer generator abandoned; lexer reconfiguration (clear, '
         'set_SQL_REGEX on a slice, add_keywords) which switches the model to "reconfigured" until default_initialization(); get_default_instance identity}; after every '
-        'step in default mode a drawn probe must equal the memo. schedule leg: the default lexer instance is reset, k in [2,4] threads make the first call, a '
+        'step in default mode a drawn probe must equal the memo, and at the end of the history every drawn call made in default mode is repeated and must give the result it gave the first time. schedule leg: the default lexer instance is reset, k in [2,4] threads make the first call, a '
         'sys.settrace line tracer parks every thread before each line of lexer.py, a Hypothesis-drawn schedule grants single steps, Lexer._lock is replaced by a '
         'cooperating lock; every thread must get the memo result and the same instance. stress leg: 16 free-running threads with switch interval 1e-6 run drawn probe '
         'sequences. non-trivial: history with >=1 raising call and (>=1 abandoned generator or a reconfigure/re-initialise pair) before a probe; schedule with a '
@@ -76,8 +77,23 @@ def _deep_text(kind, d):
             'ops': 'select ' + 'a+' * d + '1', 'func': 'select ' + 'f(' * d + '1' + ')' * d}[kind]
 
 
+def _observe(func, text, opts):
+    """JSON-able result of a drawn call (SQLParseError is a result)"""
+    try:
+        if func == 'parse':
+            return [[str(x), shape(x), x.get_type()] for x in sqlparse.parse(text)]
+        if func == 'split':
+            return sqlparse.split(text)
+        if func == 'tokenize':
+            return [[str(t), v] for t, v in lexer.tokenize(text)]
+        return sqlparse.format(text, **dict(opts))
+    except SQLParseError:
+        return ['SQLParseError']
+
+
 def check_history(case):
     res = Result(key=case['ops'])
+    recorded = []
     lx = lexer.Lexer.get_default_instance()
     lx.default_initialization()
     mode = 'default'
@@ -89,17 +105,11 @@ def check_history(case):
         try:
             if kind == 'call':
                 _, func, text, opts = o
-                try:
-                    if func == 'parse':
-                        sqlparse.parse(text)
-                    elif func == 'split':
-                        sqlparse.split(text)
-                    elif func == 'tokenize':
-                        list(lexer.tokenize(text))
-                    else:
-                        sqlparse.format(text, **dict(opts))
-                except SQLParseError:
+                r = _observe(func, text, opts)
+                if r == ['SQLParseError']:
                     raised += 1
+                if mode == 'default':
+                    recorded.append((step, func, text, opts, r))
             elif kind == 'invalid':
                 table = O.invalid_table()
                 opt, val = table[o[1] % len(table)]
@@ -204,6 +214,17 @@ def check_history(case):
                          'probe %d %r gives %r after step %d %r, fresh interpreter gives %r' % (pi, c20_memo.PROBES[pi][:2], str(got)[:120], step, str(o)[:120], str(memo()[pi])[:120]))
                 break
     lexer.Lexer.get_default_instance().default_initialization()
+    # every drawn call made in default mode is repeated at the end of the history: same input and options, same result
+    for step, func, text, opts, r in recorded:
+        try:
+            again = _observe(func, text, opts)
+        except Exception as e:
+            f = exc_failure('repeat-raises', e)
+            res.failures.append(f)
+            break
+        if again != r:
+            res.fail('repeat-differs', func, '%s(%r, %r) gave %r at step %d and %r at the end of the history' % (func, text[:80], opts, str(r)[:100], step, str(again)[:100]))
+            break
     res.nontrivial = raised >= 1 and (abandoned >= 1 or reconf_pair >= 1)
     res.labels = ['history', 'raised'] * 1 if raised else ['history']
     res.labels += ['abandoned-generator'] * bool(abandoned) + ['reconf+reinit'] * bool(reconf_pair) + ['op:' + o[0] for o in case['ops']]
